@@ -68,7 +68,7 @@ OUT_BODIES = {
 PYEXN = ["KeyError", "ValueError", "TypeError", "AttributeError", "OverflowError", "RecursionError",
          "UnicodeDecodeError", "JSONDecodeError", "OSError", "FileNotFoundError", "ValidationError",
          "AwesomeVersionException", "AwesomeVersionCompareException", "LimitOverrunError",
-         "IncompleteReadError", "CancelledError", "MqttError", "RuntimeError", "Exception"]
+         "IncompleteReadError", "CancelledError", "MqttError", "RuntimeError", "IndexError", "Exception"]
 
 
 def short(mod) -> str:
@@ -628,7 +628,7 @@ def extract(repo: str):
         "AwesomeVersionCompareException": AwesomeVersionCompareException,
         "LimitOverrunError": asyncio.LimitOverrunError, "IncompleteReadError": asyncio.IncompleteReadError,
         "CancelledError": asyncio.CancelledError, "MqttError": MqttError, "RuntimeError": RuntimeError,
-        "Exception": Exception,
+        "IndexError": IndexError, "Exception": Exception,
     }
     rows = []
     js["subclass"] = {}
